@@ -3,7 +3,7 @@
 # Applies the patch to a scratch worktree of /repo (outside /repo and /verif), runs the check against it
 # via GLUE_SRC, prints the exit code and removes the worktree.
 set -u
-PATCH="$1"; PROP="$2"; shift 2
+PATCH="$(realpath "$1")"; PROP="$2"; shift 2
 WT=$(mktemp -d /var/tmp/verif-mut-XXXXXX)
 rmdir "$WT"
 git -C /repo worktree add -f "$WT" HEAD -q || exit 3
